@@ -735,7 +735,10 @@ def exec_op(proc, spec, texts, keep):
         else:
             p.readUnicode(texts[spec["f"]][spec["t"]])
         if k == "walkflag":
-            p.ctx.filter_empty_lines = True
+            try:
+                p.ctx.filter_empty_lines = True
+            except AttributeError:   # the flag is no longer a plain attribute (never on the unchanged
+                pass                 # tree): go on without it, the witness then reports the difference
         es = list(p.parse())
         return {"ents": [ent_record(e) for e in es], "extra": [ent_extra(e) for e in es],
                 "pent": [pentry_of(e) for e in es],
